@@ -52,6 +52,11 @@ def run(tier):
         import copy
         sets.append(('corpus-weights', 'vpsc', corpus3, True))
         sets.append(('corpus-weights-avoid', 'avoid', copy.deepcopy(corpus3), True))
+    corpus4 = L.load_corpus('c02_mean_preserving.txt')
+    if corpus4:
+        import copy
+        sets.append(('corpus-mean-preserving', 'vpsc', corpus4, True))
+        sets.append(('corpus-mean-preserving-avoid', 'avoid', copy.deepcopy(corpus4), True))
     base = gen(1200 if quick else 8000, 12)
     twins = []
     for ins in base:
@@ -67,6 +72,18 @@ def run(tier):
     sets.append(('inc-vpsc-weights', 'vpsc', gen(300 if quick else 3000, 10, 'I', True, True), False))
     sets.append(('inc-avoid-weights', 'avoid', gen(150 if quick else 1500, 10, 'I', True, True), False))
     sets.append(('tiny-enum-weights', 'vpsc', gen(150 if quick else 1500, 5, 'I', True, True), True))
+    # directed family `mean-preserving re-solve` (DESIGN 9.19): after a solve, the desired positions of the variables of blocks of
+    # the RETURNED partition move by weighted-zero-sum dyadic perturbations (Block::posn keeps its value bit for bit, the
+    # multipliers change), then solve/satisfy again on the same solver; weights / scales != 1, several blocks, up to 3 rounds
+    mp_stats = {}
+    rng_mp = C.SplitMix64(res.seed ^ 0xC02919)       # its own stream: the other sets see the instances they saw before
+    for lab, impl_, cnt in (('mp-resolve-vpsc', 'vpsc', 400 if quick else 4000), ('mp-resolve-avoid', 'avoid', 200 if quick else 2000)):
+        mpi, mp_stats[lab] = L.gen_mp_histories(rng_mp, cnt, 7, impl_, nid[0] + 1)
+        nid[0] += cnt
+        for g in mpi:
+            if g['ops'][-1][0] == 'F':
+                g['ops'][-1] = ('S',)
+        sets.append((lab, impl_, mpi, False))
     sets.append(('inc-vpsc-large', 'vpsc', gen(40 if quick else 500, 40), False))
     if not quick:
         sets.append(('inc-avoid-large', 'avoid', gen(250, 40), False))
@@ -199,7 +216,7 @@ def run(tier):
     res.cov.update({'evaluations': evals, 'distinct_nontrivial': len(nontrivial),
                     'rule': 'one evaluation = one successful solve() of the real solver with no constraint flagged, decided against the kkt_ok-certified '
                             'unique optimum (1e-5 * problem scale); both solvers (IncSolver incl. the libavoid copy, static Solver on DAGs), scaled variables, '
-                            're-solve histories (constraints added, desired positions moved, Variable::weight changed - sets *-weights), permuted twins; non-trivial = distinct instances whose optimum has at least one active constraint',
+                            're-solve histories (constraints added, desired positions moved, Variable::weight changed - sets *-weights; desired positions moved so that the weighted mean of a block of the returned partition is exactly preserved - sets mp-resolve-*), permuted twins; non-trivial = distinct instances whose optimum has at least one active constraint',
                     'exhaustive': False,
                     'exhaustive_note': 'set exhaustive-small (with the exact active-set enumeration oracle always on): ' +
                                        ('1/5 of the n=2 family, rotating with the seed' if quick else 'the complete n=2 and n=3 families of vlib/c01lib.gen_exhaustive'),
@@ -213,6 +230,8 @@ def run(tier):
                                                'between a change of a desired position and the next moveBlocks); gap bound / min multiplier = KKT.kkt_gap and '
                                                'the smallest recomputed multiplier of an active inequality on the states the model returns from solve() with nothing flagged; a failure is '
                                                'reported as a correspondence difference'),
+                    'mean_preserving_resolve': dict(mp_stats, what='sets mp-resolve-*: histories built from the block partition the real solver returned; rounds = re-solves '
+                                                    'after a perturbation that leaves sum w*a*d of every perturbed block (hence Block::posn) exactly unchanged'),
                     'order_independence_pairs': twin_pairs, 'order_dependent': twin_bad,
                     'known_finding_hits': known_hits, 'input_histogram': hist,
                     'set_times_s(harness,driver)': times, 'machinery_errors': errors[:5]})
